@@ -77,6 +77,20 @@ theorem roundtrip_unique_keys (key : E → K) (lt : K → K → Bool) (c tgt : L
     deserializeAll .tree key lt (serializeAll c) tgt = c :=
   zipWith_deser_strict key lt c.length c tgt hlen hs
 
+/-- by container kind: bag unconditionally; map, set, counting_set (and any multimap / multiset
+whose ranks happen to hold no repeated key) under the store's own invariant -/
+theorem roundtrip (k : Kind) (key : E → K) (lt : K → K → Bool) (c tgt : List (Local E X))
+    (hlen : tgt.length = c.length)
+    (hinv : k = .bag ∨ ∀ l ∈ c, StrictSorted key lt l.items) :
+    deserializeAll k.disc key lt (serializeAll c) tgt = c := by
+  cases k with
+  | bag => exact roundtrip_seq key lt c tgt hlen
+  | map => exact roundtrip_unique_keys key lt c tgt hlen (hinv.resolve_left (by decide))
+  | multimap => exact roundtrip_unique_keys key lt c tgt hlen (hinv.resolve_left (by decide))
+  | set => exact roundtrip_unique_keys key lt c tgt hlen (hinv.resolve_left (by decide))
+  | multiset => exact roundtrip_unique_keys key lt c tgt hlen (hinv.resolve_left (by decide))
+  | countingSet => exact roundtrip_unique_keys key lt c tgt hlen (hinv.resolve_left (by decide))
+
 /-- one rank of an ordered store with repeated keys (multimap): same extra member, the
 same elements with the same multiplicities, again sorted — the order *within* a run of equal
 keys is not preserved (cereal re-inserts with a hint that reverses it) -/
